@@ -20,7 +20,10 @@ IsEvent(e) == l <= Len(Trace) /\ Trace[l].ev = e /\ l' = l + 1
 
 TReset == IsEvent("reset") /\ cache' = {} /\ upload' = {} /\ last' = NoLast /\ UNCHANGED cases
 
-Toks(ts) == /\ \A i \in DOMAIN ts : ts[i] \in Tokens
+\* ordinary name tokens used only by recorded histories: names of directories that lie NEXT TO the store roots and whose
+\* names extend the roots' names ("cache" -> "cachex"); for the specification they are opaque ordinary characters
+ExtraTokens == {"cachex", "uploadx"}
+Toks(ts) == /\ \A i \in DOMAIN ts : ts[i] \in Tokens \cup ExtraTokens
 Eff == R.chg > 0 \/ R.newout > 0 \/ R.served
 
 TOp(op) == /\ IsEvent(op)
